@@ -5,7 +5,7 @@
    Not covered by theorems (correspondence only): format 2, Big5 (encoding_rs data). *)
 From AV Require Import Base.Prelude Gen.MacRomanTables Gen.CmapPrefs
   Model.MacRoman Model.MacRomanRef Model.Cmap Model.CmapSpec
-  Proofs.CmapProofs Proofs.MacRomanProofs.
+  Proofs.CmapProofs Proofs.CmapParseProofs Proofs.MacRomanProofs.
 Open Scope Z_scope.
 
 (* ---- 1. single lookups conform to the specification: formats 0, 4, 6, 10, 12 ---------------- *)
@@ -106,6 +106,27 @@ Theorem C06_mappings_exact : forall st c g,
 Proof. exact mappings_exact. Qed.
 Print Assumptions C06_mappings_exact.
 
+(* every sub-table that CmapSubtable::read accepts has in-range fields, so the enumeration
+   theorems apply to everything that parses *)
+Theorem C06_parse_in_range : forall d st, bytes_ok d = true -> parse d = Ok st -> in_range st.
+Proof. exact parse_in_range. Qed.
+Print Assumptions C06_parse_in_range.
+
+Theorem C06_parsed_mappings_first : forall d st c,
+  bytes_ok d = true -> parse d = Ok st -> supported st -> 0 <= c ->
+  snd (mappings st) = Ok tt ->
+  first_assoc c (fst (mappings st)) = lookup st c.
+Proof. exact parsed_mappings_first. Qed.
+Print Assumptions C06_parsed_mappings_first.
+
+(* a parsed format 4 sub-table has four segment arrays of one length below 2^15 (so the u32
+   arithmetic of offset_to_index cannot overflow) *)
+Theorem C06_parse4_shape : forall d l ends starts deltas ros gids,
+  bytes_ok d = true -> parse4 d = Ok (F4 l ends starts deltas ros gids) ->
+  len ends = len starts /\ len deltas = len starts /\ len ros = len starts /\ len starts <= 32767.
+Proof. exact parse4_shape. Qed.
+Print Assumptions C06_parse4_shape.
+
 (* ---- 3. Mac OS Roman conversions (tables regenerated from src/macroman.rs) ------------------ *)
 
 Theorem C06_macroman_bytes_roundtrip : forall b c,
@@ -156,18 +177,26 @@ Theorem C06_font_lookup_selected : forall cmap first ch recs enc r,
 Proof. exact font_lookup_selected. Qed.
 Print Assumptions C06_font_lookup_selected.
 
-(* Font::map_glyph: the sub-table's glyph; errors and unmapped codes are glyph 0 *)
-Theorem C06_font_map_glyph : forall cmap offset code st,
-  parse (slice_from cmap offset) = Ok st ->
-  map_glyph st code <> Panic -> map_glyph st code <> OOB ->
-  font_map_glyph cmap offset code = Ok (glyph_of (map_glyph st code)).
-Proof. exact font_map_glyph_spec. Qed.
+(* Font::map_glyph always returns a glyph (never panics): the selected sub-table's glyph, with
+   errors, unmapped codes and an unreadable sub-table all giving glyph 0 *)
+Theorem C06_font_map_glyph : forall cmap offset code,
+  font_map_glyph cmap offset code =
+  Ok (match parse (slice_from cmap offset) with
+      | Ok st => glyph_of (map_glyph st code)
+      | _ => 0
+      end).
+Proof. exact font_map_glyph_total. Qed.
 Print Assumptions C06_font_map_glyph.
 
-Theorem C06_font_map_glyph_unparsable : forall cmap offset code e,
-  parse (slice_from cmap offset) = Err e -> font_map_glyph cmap offset code = Ok 0.
-Proof. exact font_map_glyph_unparsable. Qed.
-Print Assumptions C06_font_map_glyph_unparsable.
+(* no panic anywhere in the modelled cmap path (the model has no panicking operation left after
+   the fixes; what ties it to the Rust is the correspondence) *)
+Theorem C06_no_panic : forall d st c cmap first ch,
+  safe (parse d) /\ safe (map_glyph st c) /\ safe (snd (mappings st)) /\ safe (font_lookup cmap first ch).
+Proof.
+  exact (fun d st c cmap first ch =>
+           conj (parse_safe d) (conj (map_glyph_safe st c) (conj (mappings_safe st) (font_lookup_safe cmap first ch)))).
+Qed.
+Print Assumptions C06_no_panic.
 
 (* F1: an encoding-record offset beyond the cmap table gives glyph 0, not a panic *)
 Theorem C06_offset_beyond_table : forall cmap offset code,
